@@ -1,5 +1,7 @@
 //! `sut`: the system-under-test driver. One subcommand per engine.
 
+mod astwalk;
+mod c05;
 mod c10;
 mod c11;
 mod enc;
@@ -153,6 +155,7 @@ fn main() {
     match cmd {
         "run" => cmd_run(),
         "gcsweep" => cmd_gcsweep(),
+        "c05" => c05::cmd(),
         "c10api" => c10::cmd(),
         "c11" => c11::cmd(),
         _ => {
